@@ -1,7 +1,7 @@
 /- GENERATED from pytoniq_core/tlb/account.py, tlb/block.py, tlb/config.py (the `deserialize` classmethods) by
    harness/translate/tlbparsers_blk.py; do not edit.  One reader per class; `none` = the parser raises.
-   Meaning of the primitives: TonVerif/Model/TlbRd.lean, TonVerif/Model/TlbRdTx.lean. -/
-import TonVerif.Model.TlbRdTx
+   Meaning of the primitives: TonVerif/Model/TlbRd.lean, TlbRdTx.lean, TlbRdBlk.lean. -/
+import TonVerif.Model.TlbRdBlk
 import TonVerif.Generated.TlbParsersTx
 set_option linter.unusedVariables false
 namespace TonVerif.Tlb.SrcBlk
@@ -126,6 +126,32 @@ def ShardAccount (sp : Bool) (cell_slice : Frag) : Rd.R := do
   pure ((Rd.obj "ShardAccount" [("account", t1), ("last_trans_hash", t2), ("last_trans_lt", t3)]), cell_slice)
 -- END ShardAccount
 
+-- BEGIN ValidatorSet
+def ValidatorSet (sp : Bool) (cell_slice : Frag) : Rd.R := do
+  let (t1, cell_slice) ← Rd.loadBytes 1 cell_slice
+  let t2 ← Rd.bytesPrefix 1 t1
+  if (!(Rd.veq t2 (Rd.bytesLit [17]) || Rd.veq t2 (Rd.bytesLit [18]))) then none else
+  let (t3, cell_slice) ← Rd.loadUint 32 cell_slice
+  let (t4, cell_slice) ← Rd.loadUint 32 cell_slice
+  let (t5, cell_slice) ← Rd.loadUint 16 cell_slice
+  let (t6, cell_slice) ← Rd.loadUint 16 cell_slice
+  let b7 ← Rd.vle t6 t5
+  if (!b7) then none else
+  let b8 ← Rd.vle (Val.int 1) t6
+  if (!b8) then none else
+  let t9 := Val.unit
+  let t10 := (Rd.str "validators")
+  let (t15, t16, t17, cell_slice) ← (if (Rd.veq t2 (Rd.bytesLit [18])) then do
+        let t11 := (Rd.str "validators_ext")
+        let (t12, cell_slice) ← Rd.loadUint 64 cell_slice
+        let (t13, cell_slice) ← Rd.loadDict 16 (Src.ValidatorDescr false) cell_slice
+        pure (t12, t11, t13, cell_slice)
+      else do
+        let (t14, cell_slice) ← Rd.loadHashmap 16 (Src.ValidatorDescr false) sp cell_slice
+        pure (t9, t10, t14, cell_slice))
+  pure ((Rd.obj "ValidatorSet" [("type_", t16), ("utime_since", t3), ("utime_until", t4), ("total", t5), ("main", t6), ("total_weight", t15), ("list", t17)]), cell_slice)
+-- END ValidatorSet
+
 /-- the readers by class name (driver op `tlbsrcblk`) -/
 def readers : List (String × (Bool → Frag → Rd.R)) := [
   ("DepthBalanceInfo", DepthBalanceInfo),
@@ -133,6 +159,7 @@ def readers : List (String × (Bool → Frag → Rd.R)) := [
   ("ShardDescr", ShardDescr),
   ("AccountStorage", AccountStorage),
   ("Account", Account),
-  ("ShardAccount", ShardAccount)]
+  ("ShardAccount", ShardAccount),
+  ("ValidatorSet", ValidatorSet)]
 
 end TonVerif.Tlb.SrcBlk
